@@ -526,6 +526,9 @@ YR_API int yr_scanner_scan_mem_blocks(
         scanner->rules->no_required_strings,
         sizeof(YR_BITMASK) * YR_BITMASK_SIZE(rules->num_rules));
 
+    // The entry point is computed again for every scan.
+    scanner->entry_point = YR_UNDEFINED;
+
     yr_stopwatch_start(&scanner->stopwatch);
 
     block = iterator->first(iterator);
